@@ -105,6 +105,27 @@ func histBlock(r *Rng, n int, kind string) []byte {
 			j := r.Intn(i + 1)
 			b[i], b[j] = b[j], b[i]
 		}
+	case "singles+few": // many symbols occurring exactly once + 2..8 dominant ones: the scaled table overshoots by more than the number of symbols above 1
+		k := r.Range(100, 254)
+		if k > n-2 {
+			k = n / 2
+		}
+		m := r.Range(2, 8)
+		if k+m > 256 {
+			m = 256 - k
+		}
+		perm := permutation(r, 256)
+		for i := range b {
+			if i < k {
+				b[i] = byte(perm[i])
+			} else {
+				b[i] = byte(perm[k+(i%m)])
+			}
+		}
+		for i := len(b) - 1; i > 0; i-- {
+			j := r.Intn(i + 1)
+			b[i], b[j] = b[j], b[i]
+		}
 	case "fibonacci": // code lengths that exceed the Huffman limit
 		counts := []int{1, 1, 1, 1, 1, 1, 1, 2, 3, 4, 8, 13, 23, 38, 63, 105, 177, 298, 500, 807}
 		pos := 0
@@ -167,7 +188,7 @@ func runC12(c *Ctx, _ []string) {
 	c.Stats["samples"] = []any{}
 	nontrivial := 0
 	seen := map[string]bool{}
-	kinds := []string{"rare+dominant", "rare+dominant", "fibonacci", "flat", "single", "geometric", "250x3+6x708", "text", "random", "runs", "skewed", "dna"}
+	kinds := []string{"rare+dominant", "rare+dominant", "singles+few", "fibonacci", "flat", "single", "geometric", "250x3+6x708", "text", "random", "runs", "skewed", "dna"}
 	try := func(name string, kind string, n int, dseed uint64) {
 		block := histBlock(NewRng(dseed), n, kind)
 		c.Count("evaluations", 1)
@@ -207,7 +228,7 @@ func runC12(c *Ctx, _ []string) {
 		}
 	}
 	lengths := func(name string) []int {
-		ls := []int{0, 1, 2, 7, 15, 16, 31, 32, 33, 63, 64, 65, 100, 255, 256, 257, 1000, 2047, 2048, 2049, 4096, 16383, 16384, 16385, 16384 + 2048, 32768, 32769, 40000, 65536, 65537, 70000}
+		ls := []int{0, 1, 2, 7, 15, 16, 31, 32, 33, 63, 64, 65, 100, 255, 256, 257, 300, 494, 700, 1000, 1023, 2047, 2048, 2049, 4096, 16383, 16384, 16385, 16384 + 2048, 32768, 32769, 40000, 65536, 65537, 70000}
 		if name == "TPAQ" || name == "TPAQX" || name == "CM" {
 			ls = []int{0, 1, 2, 15, 16, 33, 64, 100, 257, 1000, 2048, 4097, 16385, 20000}
 		}
@@ -223,6 +244,14 @@ func runC12(c *Ctx, _ []string) {
 		try(name, "fibonacci", 2048, 1)
 		try(name, "fibonacci", 16384+2048, 2)
 		try(name, "250x3+6x708", 4998, 3)
+		// scaled tables that overshoot by more than the number of symbols above 1 (small totals, many singles)
+		if name == "RANGE" || name == "ANS0" || name == "ANS1" || name == "HUFFMAN" {
+			for _, n := range []int{300, 494, 600, 800, 1023} {
+				for sd := uint64(0); sd < 3; sd++ {
+					try(name, "singles+few", n, 100+sd)
+				}
+			}
+		}
 		extra := 40 * c.Scale
 		if name == "TPAQ" || name == "TPAQX" || name == "CM" {
 			extra = 8 * c.Scale
@@ -341,7 +370,7 @@ func runC13(c *Ctx, _ []string) {
 	r := NewRng(c.Seed ^ 0x1313)
 	c.Stats["samples"] = []any{}
 	nontrivial := 0
-	shapesFor := map[string][]string{"TEXT": {"text", "accent", "utf8", "b64"}, "UTF": {"utf8", "text"}, "DNA": {"dna"}, "PACK": {"b64", "dna", "skewed", "runs"},
+	shapesFor := map[string][]string{"TEXT": {"text", "accent", "utf8", "b64", "crlf", "crlfcut", "crlflone", "crlfcut", "crlflone"}, "UTF": {"utf8", "text"}, "DNA": {"dna"}, "PACK": {"b64", "dna", "skewed", "runs"},
 		"EXE": {"exe"}, "MM": {"mm"}, "ROLZX": {"dna", "text", "random", "exe", "mm"}, "ROLZ": {"dna", "text", "random", "exe", "mm"},
 		"ZRLT": {"runs", "zeros"}, "RLT": {"runs", "zeros", "text"}, "BWT": {"text", "dna", "runs", "random"}, "BWTS": {"text", "runs"}}
 	hints := []string{"", "", "", "", "", "", "", "", "", "TEXT", "DNA", "EXE", "MULTIMEDIA", "BIN", "UTF8", "BASE64", "NUMERIC", "SMALL_ALPHABET"}
@@ -408,6 +437,16 @@ func runC13(c *Ctx, _ []string) {
 	// boundaries of the run / literal length encodings: a literal run (or a run of one byte) of
 	// exactly L bytes followed by something compressible, L swept around every threshold
 	var sweep []int
+	// DOS text cut by the block boundaries between CR and LF, or with a single lone LF (CRLF detection of TEXT)
+	for _, en := range []string{"NONE", "HUFFMAN", "ANS1", "CM"} {
+		for _, sh := range []string{"crlf", "crlfcut", "crlflone"} {
+			for _, n := range []int{300, 4096, 20000} {
+				for sd := uint64(0); sd < 2; sd++ {
+					try("TEXT", en, sh, n, "", 500+sd)
+				}
+			}
+		}
+	}
 	for k := 3; k <= 17; k++ {
 		for d := -2; d <= 2; d++ {
 			sweep = append(sweep, (1<<uint(k))+d)
